@@ -1,0 +1,7 @@
+//go:build !verif
+// +build !verif
+
+package verifhook
+
+// Point does nothing without the verif build tag.
+func Point(id int) {}
